@@ -71,6 +71,7 @@ func (its *MongoCollections) GetOperations(
 	if err != nil {
 		return nil, nil, errors.ServerDBQuery.New(ctx.L(), err.Error())
 	}
+	defer func() { _ = cursor.Close(ctx) }()
 	var opList []*model.Operation
 	var sseqList []uint64
 	for cursor.Next(ctx) {
@@ -80,6 +81,9 @@ func (its *MongoCollections) GetOperations(
 		}
 		opList = append(opList, opDoc.GetOperation())
 		sseqList = append(sseqList, opDoc.Sseq)
+	}
+	if err := cursor.Err(); err != nil {
+		return nil, nil, errors.ServerDBQuery.New(ctx.L(), err.Error())
 	}
 	return opList, sseqList, nil
 }
